@@ -4,7 +4,7 @@
    cancel()) is not modelled.  What is modelled is every behaviour of a timer that raises the
    flag at some read: the stop flag with an arbitrary schedule `stop_after` (never, or at
    the n-th read for any n), and what the two drivers do with it. *)
-From Suiron Require Import Model.Term Model.Subst Model.Rename Model.Solve Proofs.SolveTimeout.
+From Suiron Require Import Model.Term Model.Subst Model.Rename Model.Solve Spec.SpecCut Proofs.SolveTimeout Proofs.SolveQuiet.
 
 (* solve: one request, then one read of the flag.  It reports the timeout message when that
    read is true, otherwise "No more." when the request found no answer, otherwise the text
@@ -65,6 +65,24 @@ Check C23_solve_all : forall kb fuel nd w nd' l w',
     l = l0 ++ (if fst (query_stopped w1) then [timeout_msg] else []) /\
     (b = true -> fst (query_stopped w1) = true).
 
+(* When no stop is pending (flag clear, no hook schedule), the search never raises the flag:
+   solve_all reports no timeout, and its list is complete - exactly the answers of the reference
+   search (Spec/SpecCut.v), each formatted, in order; the world afterwards is the reference's. *)
+Theorem C23_no_stop_pending : forall kb fuel q w fs R nd w1 nd' l w',
+  quiet w ->
+  canswers kb fuel fs q w = Ok R ->
+  make_base_node kb (GCall q) w = Ok (nd, w1) ->
+  solve_all fuel kb nd w1 = Ok (nd', l, w') ->
+  Forall2 (fun s txt => exists f, answer_text f q s = Ok txt) (fst R) l /\ w' = snd R.
+Proof. exact solve_all_refines. Qed.
+
+(* the search itself never raises the flag *)
+Theorem C23_search_never_stops_itself : forall kb bf F nd w nd' r c w1,
+  quiet w -> next kb bf F nd w = Ok (nd', r, c, w1) -> quiet w1.
+Proof. exact quiet_next. Qed.
+
+Print Assumptions C23_no_stop_pending.
+Print Assumptions C23_search_never_stops_itself.
 Print Assumptions C23_solve.
 Print Assumptions C23_solve_all.
 Print Assumptions C23_flag_stays.
